@@ -1164,7 +1164,22 @@ func (cli *Client) readOneTractRS(
 	thisOffset int64) {
 
 	rsTract := tract.RS.Chunk.ToTractID()
-	length := min(len(thisB), int(tract.RS.Length))
+	// Clip the request to the part of the tract that lies at or after thisOffset:
+	// bytes past RS.Length in the piece are padding or another tract's data.
+	length := 0
+	if remaining := int64(tract.RS.Length) - thisOffset; remaining > 0 {
+		length = min(len(thisB), int(remaining))
+	}
+	if length == 0 {
+		// Nothing of the tract lies in the requested range (this includes
+		// zero-length tracts). Answer like a tractserver reading at or past
+		// the end of a replicated tract: no bytes, EOF.
+		for i := range thisB {
+			thisB[i] = 0
+		}
+		*result = tractResult{len(thisB), 0, core.ErrEOF, ""}
+		return
+	}
 	offset := int64(tract.RS.Offset) + thisOffset
 	read, err := cli.tractservers.ReadInto(ctx, tract.RS.Host, rsTract, core.RSChunkVersion, thisB[:length], offset)
 
@@ -1197,7 +1212,7 @@ func (cli *Client) readOneTractRS(
 	// Even if the tractserver doesn't think this was an EOF (because it was
 	// packed with other data), we might have requested less than the caller
 	// asked for. That counts as an EOF too.
-	if int(tract.RS.Length) < len(thisB) {
+	if length < len(thisB) {
 		err = core.ErrEOF
 	}
 
